@@ -47,7 +47,7 @@ EYE_NOTE = ("Trusted base: tokio paused clock (virtual time exact at 1 ms); the 
 CHECKS.update({
     "C10": dict(engine="eyeballs+tcpeyes", ref="§5 C10/C11, §4 E4, §10.3",
         technique="property-based testing in virtual time: exhaustive small-scope enumeration plus random attempt sets against statement-derived necessary conditions and a differential reference (discrete-event simulation)",
-        text="Every combination of up to 2 (quick) / 3 (thorough) scripted attempts over the outcome/latency/stagger/timeout/concurrency grid is enumerated, plus random sets of up to 8 attempts (candidates given through push, extend or both; the set awaited through finish() or its IntoFuture impl): the result must be the first success, failure only after every candidate failed (first failure), timeout only at the deadline without an earlier success, no-progress only for the empty set; tie-free cases must equal the reference exactly. A transport-level leg runs the real TcpTransport::connect_to_addrs over loopback candidates that accept, refuse or hang (listener with a full accept queue) with timeout in {none, 1.2, 1.6, 2.4 s} and concurrency in {none, 0..3}: outcome and completion time must match the reference for stagger = timeout / number of addresses (banded real-time assertions; a deviation that machine load could explain is repeated and counts when it occurs three times in a row; configurations in which nothing allows progress must still be pending after 0.5 s).",
+        text="Every combination of up to 2 (quick) / 3 (thorough) scripted attempts over the outcome/latency/stagger/timeout/concurrency grid is enumerated, plus random sets of up to 8 attempts (candidates given through push, extend or both; the set awaited through finish() or its IntoFuture impl): the result must be the first success, failure only after every candidate failed (first failure), timeout only at the deadline without an earlier success, no-progress only for the empty set; tie-free cases must equal the reference exactly. A transport-level leg runs the real TcpTransport::connect_to_addrs over loopback candidates that accept, refuse, hang (listener with a full accept queue) or fail while their socket is prepared (unassignable local address) with timeout in {none, 1.2, 1.6, 2.4 s} and concurrency in {none, 0..3}: outcome and completion time must match the reference for stagger = timeout / number of addresses (banded real-time assertions; a deviation that machine load could explain is repeated and counts when it occurs three times in a row; configurations in which nothing allows progress must still be pending after 0.5 s).",
         note=EYE_NOTE),
     "C11": dict(engine="eyeballs+tcpeyes", ref="§5 C10/C11, §4 E4, §10.3",
         technique="property-based testing in virtual time: recorded first-poll instants of scripted attempts checked against ordering/pacing/deadline conditions and a differential reference",
@@ -66,7 +66,7 @@ CHECKS.update({
 CHECKS.update({
     "C08": dict(engine="sniff", ref="§5 C08, §4 E3",
         technique="grammar-based and enumerated fragmentation testing: metamorphic (fragmented vs one chunk) and differential (auto-detecting connection vs plain hyper http1/http2 connection) oracles plus the preface classification rule",
-        text="Byte streams from a grammar (HTTP/1 requests incl. ones sharing a prefix with the preface, h2 preface + frames, strict preface prefixes followed by EOF/diverging bytes, raw bytes) are delivered to server::conn::auto::Builder through a scripted reader with exact chunk boundaries and Pending results (all compositions of the first 10/14 bytes for golden streams, every single cut position, one-byte reads, random plans). The server's answer must be HTTP/2 exactly when the stream starts with the preface, equal the unfragmented answer and equal a single-protocol hyper connection's answer.",
+        text="Byte streams from a grammar (HTTP/1 requests incl. ones sharing a prefix with the preface, h2 preface + frames, strict preface prefixes followed by EOF/diverging bytes, preface look-alikes that differ from the preface in one letter's case, one byte, one swap or one bit, raw bytes) are delivered to server::conn::auto::Builder through a scripted reader with exact chunk boundaries and Pending results (all compositions of the first 10/14 bytes for golden streams, every single cut position, one-byte reads, random plans). A reader that is polled more than 5000 times past the end of the stream is cut off and reported. The server's answer must be HTTP/2 exactly when the stream starts with the preface, equal the unfragmented answer and equal a single-protocol hyper connection's answer.",
         note="Trusted base: hyper's http1/http2 server connections as reference; exact-equality oracles are applied only where that reference itself is invariant under the same read plan and under one-byte reads (hyper's handling of malformed input may depend on read boundaries) - otherwise only the classification is asserted; HTTP/2 answers compared by DATA payload/END_STREAM/RST/GOAWAY, HTTP/1 byte-exact minus Date."),
 })
 
@@ -77,7 +77,7 @@ CHECKS.update({
         note="In the TLS pair leg an end may also vanish abruptly (transport dropped without close_notify): the reader must then see an error, never a clean end of stream. Trusted base: wrapper adapters are pass-through (no buffering); real-socket legs use 2 s real-time guards whose expiry is inconclusive, never a violation; rustls/tokio-rustls record layer in the TLS pair leg (pipes below a record header stall in the TLS stack itself and are excluded)."),
     "C19": dict(engine="timeout+poolsim+netsim", ref="§5 C19, §4 E9/E1/E2",
         technique="property-based testing in virtual time: exhaustive grid plus random (duration, inner completion, first-poll delay) cases for the Timeout layer; stateful pool histories with virtual-time advances so deadlines fire at every stage of a pooled request",
-        text="Unit leg: result value, resolution instant (never later than the deadline), inner future dropped at resolution and never polled again; durations range from 0 to Duration::MAX (no panic, the inner result is delivered); the future may be polled once under another waker before the task awaits it. Pool leg: requests wrapped in the real Timeout inside poolsim histories; a request polled at or after its deadline must resolve, a timeout never fires early, no connection is handed to a request that already ended, and after the drain a probe to every origin is served. End-to-end leg: the real client stack with with_timeout against slow handlers in netsim, with followed redirects (timeouts fire exactly at the deadline, which covers the whole chain of hops; no request future resolves after its deadline; completed requests are intact, a fresh client is served afterwards).",
+        text="Unit leg: result value, resolution instant (never later than the deadline), inner future dropped at resolution and never polled again; durations range from 0 to Duration::MAX (no panic, the inner result is delivered); the future may be polled once under another waker before the task awaits it, and may be left alone after its first poll until some later instant (what had happened first still decides). Pool leg: requests wrapped in the real Timeout inside poolsim histories; a request polled at or after its deadline must resolve, a timeout never fires early, no connection is handed to a request that already ended, and after the drain a probe to every origin is served. End-to-end leg: the real client stack with with_timeout against slow handlers in netsim, with followed redirects (timeouts fire exactly at the deadline, which covers the whole chain of hops; no request future resolves after its deadline; completed requests are intact, a fresh client is served afterwards).",
         note="Trusted base: tokio paused clock; poolsim collaborators (see C02). When the first poll happens after both the deadline and the inner completion either answer is accepted."),
 })
 
@@ -95,7 +95,7 @@ CHECKS.update({
 NET_NOTE = ("Trusted base: tokio current_thread scheduler with paused clock (schedules explored by timing perturbation: start "
             "times, handler delays, chunk gaps, transport connect delay and per-read latency, buffer sizes 1 B-64 KiB); hyper/h2 as "
             "HTTP engines on both sides; the duplex transport stands for the network. HTTP/2 is combined only with pipes >= 128 B "
-            "(h2's own handshake deadlocks on smaller ones) and with pipes that hold at least the smaller direction's total traffic (h2 writes an owed control frame before it reads: with both directions full two ends owing SETTINGS ACK / GOAWAY stall each other, DESIGN 10.4) and GET bodies carry exact size hints (hyper does not chunk GET bodies). One case in three runs over TLS (Server::with_tls with the fixture certificate, client with_tls, https origins, no ALPN): rustls on both ends is then part of the trusted base.")
+            "(h2's own handshake deadlocks on smaller ones) and with pipes that hold at least the smaller direction's total traffic (h2 writes an owed control frame before it reads: with both directions full two ends owing SETTINGS ACK / GOAWAY stall each other, DESIGN 10.4) and GET bodies carry exact size hints (hyper does not chunk GET bodies). Every simulation runs on a supervised thread: one that has not come back after 60 s of real time (they take milliseconds) is a task that never yields and is reported. One case in three runs over TLS (Server::with_tls with the fixture certificate, client with_tls, https origins, no ALPN): rustls on both ends is then part of the trusted base.")
 
 CHECKS.update({
     "C01": dict(engine="netsim+poolsim+tcpe2e", ref="§5 C01, §4 E2/E1",
@@ -104,11 +104,11 @@ CHECKS.update({
         note=NET_NOTE),
     "C07": dict(engine="netsim", ref="§5 C07, §4 E2",
         technique="virtual-time schedule generation: the graceful-shutdown signal instant is swept relative to accept, protocol detection, request transfer, handler execution and response transfer; history invariants over the handler log, the executor-wrapped connection tasks and the client results",
-        text="Serving future resolves Ok exactly at the signal; every request whose handler started before the signal receives its complete correct response; every connection task (including idle keep-alive connections and connections still in protocol detection) finishes while the clients keep their ends open; nothing is accepted or served on a connection accepted after the signal. A second leg resolves the signal synchronously while the k-th connection of a burst of simultaneous connects is being accepted (in the middle of one poll of the serving future): no connection beyond the k-th may be accepted or served.",
+        text="Serving future resolves Ok exactly at the signal; every request whose handler started before the signal receives its complete correct response; every connection task (including idle keep-alive connections and connections still in protocol detection) finishes while the clients keep their ends open; nothing is accepted or served on a connection accepted after the signal. A raw HTTP/1 client may pipeline a second request behind a slow first one: the first, once its handler started before the signal, must still be answered completely. A second leg resolves the signal synchronously while the k-th connection of a burst of simultaneous connects is being accepted (in the middle of one poll of the serving future): no connection beyond the k-th may be accepted or served.",
         note=NET_NOTE + " Idle holders are only placed where hyper itself closes them on graceful shutdown (auto-detecting and idle HTTP/1 connections)."),
     "C09": dict(engine="netsim+socksrv+tlsstack", ref="§5 C09, §4 E2, §10.3",
         technique="fault-sequence generation in virtual time: per-connection faults (cancelled connect, disconnects, garbage, truncated head/body, mid-response disconnect, partial preface, clients asking for a 0- or 1-byte pipe, handler errors) interleaved with well-behaved requests; oracle = serving futures still pending, probe client served, other requests correct",
-        text="After 1-5 generated faults per case (incl. a crowd of 2-65 clients that connect in one instant and hang up; servers built plain or with_graceful_shutdown on a signal that never resolves) the serving future of every server must still be pending, a fresh well-behaved probe client must be served by every server, and every well-behaved request on other connections must have completed with its correct response.",
+        text="After 1-5 generated faults per case (over TLS also inside a completed TLS session, ended with close_notify; incl. a crowd of 2-65 clients that connect in one instant and hang up; servers built plain or with_graceful_shutdown on a signal that never resolves) the serving future of every server must still be pending, a fresh well-behaved probe client must be served by every server, and every well-behaved request on other connections must have completed with its correct response.",
         note=NET_NOTE + " A real-socket leg (engine socksrv) repeats the fault/probe scheme on TCP and Unix acceptors in real time (reset or close before accept, garbage, truncated head/body, Unix clients bound to plain and non-UTF-8 pathnames); a probe that merely times out there is inconclusive. A TLS-listener leg (engine tlsstack) injects plaintext, garbage, truncated-ClientHello, immediate-close and wrong-SNI clients at a real Server with with_tls and then requires a well-behaved TLS probe to be served and the serving future still pending. A faulty-before-accept leg (engine queueaccept) serves, through Acceptor::new(..) with and without with_tls and Server::with_acceptor, a listener written against the public Accept trait that hands out streams on which the peer has already spoken (plaintext, garbage, partial ClientHello or preface) or which it has already left. A capped make-service leg (engine makeready) gives the Server a make-service that admits a bounded number of live connections: call() without a preceding Ready from poll_ready is a violation, and a stalled client must not keep later clients from being served once a slot frees up. OS-level accept() errors are not reachable."),
 })
 
